@@ -16,7 +16,10 @@ EXTENDS Naturals, FiniteSets, TLC, Json
 \* (the two rotations themselves, collocation points and rotational velocities - computed before the transformation -, the
 \* performance functionals, the structure) reads the point's own inputs.  Frame "rot": centre and rate of rotation of the
 \* lattice inside an AEROSTRUCTURAL point are inputs of their own (the aircraft cg is computed after the coupled group).
-CONSTANTS Conn,        \* set of [name, consumer, source, frame, pgsrc]: component input `consumer` (absolute path) named `name` is fed by
+\* `want`: inside a performance group (<surface>_perf, total_perf) an input that carries the NAME of one of the group's own
+\* outputs (CL, CD, S_ref, ...) must read that output ("" = no such output): the wave-drag estimate reads the surface's CL, not an
+\* intermediate of the same kind.
+CONSTANTS Conn,        \* set of [name, consumer, source, frame, pgsrc, want]: component input `consumer` (absolute path) named `name` is fed by
                        \* `source`; frame = "pg" | "body" by the rule above; pgsrc = the source is an output of pg_frame / pg_transform
           FlowNames,   \* flight-condition names
           Expected     \* [name |-> source the point's own promoted input resolves to] for the names the point exposes
@@ -33,8 +36,10 @@ SharedSource == done \in BOOLEAN /\ \A n \in FlowNames : \A f \in {"pg", "body",
 PointFeeds == done \in BOOLEAN /\ \A n \in FlowNames \cap DOMAIN Expected : \A a \in InFrame(n, "body") : a.source = Expected[n]
 \* inside the Prandtl-Glauert frame the transformed quantity is read, never the body-frame one
 PGFrameFed == done \in BOOLEAN /\ \A c \in Conn : (c.frame = "pg" /\ c.name \in {"alpha", "beta", "cg", "omega"}) => c.pgsrc
+ReadsOwnOutput == done \in BOOLEAN /\ \A c \in Conn : c.want # "" => c.source = c.want
 Offenders == {c \in Conn : c.name \in FlowNames /\ (\/ (c.frame = "body" /\ c.name \in DOMAIN Expected /\ c.source # Expected[c.name])
                                                      \/ (c.frame = "pg" /\ c.name \in {"alpha", "beta", "cg", "omega"} /\ ~c.pgsrc)
                                                      \/ \E b \in InFrame(c.name, c.frame) : b.source # c.source)}
+             \cup {c \in Conn : c.want # "" /\ c.source # c.want}
 Report == done \in BOOLEAN /\ (Offenders # {}) => PrintT(<<"EMIT", ToJson([offenders |-> Offenders])>>)
 =============================================================================
